@@ -250,6 +250,9 @@ def case_reject(case):
     tests = [
         ("L1 first basis", lambda: compute_overlap(l1, xyz)),
         ("L1 second basis", lambda: compute_overlap(good, xyz, l1, xyz)),
+        ("L1 first basis with an L2 second basis", lambda: compute_overlap(l1, xyz, good, xyz)),
+        ("L1 first basis with an L2 second basis on another geometry", lambda: compute_overlap(l1, xyz, good, xyz + 0.7)),
+        ("both bases L1", lambda: compute_overlap(l1, xyz, l1, xyz)),
         ("second basis without second geometry", lambda: compute_overlap(good, xyz, good, None)),
         ("second geometry without second basis", lambda: compute_overlap(good, xyz, None, xyz)),
     ]
